@@ -282,11 +282,223 @@ def asFacts (j : Json) : R Facts := do
   pure { nrows := (← natF j "nrows"), ncols := (← natF j "ncols"), obsIds := (← listF asStr j "obs_ids"),
          sampIds := (← listF asStr j "samp_ids"), omdLen := (← optF asNat j "omd_len"), smdLen := (← optF asNat j "smd_len") }
 
+/-! ### The registry itself: a fresh `ErrorProfile()` under register / unregister / state= / setcall / getcall /
+`in` / test.  Module-level code in err.py builds the process-wide profile with seven `register` calls; this is the
+model of the class those calls go through, and of `test` when several kinds fire or `*args` restricts the kinds. -/
+namespace Reg
+
+/-- one registered kind: its current reaction and its callback (0 = none: the default no-op under 'call') -/
+structure Entry where
+  kind : Kind
+  reaction : String
+  cb : Nat
+  deriving Repr, DecidableEq
+
+/-- the three dicts of an `ErrorProfile` (they always have the same keys), in insertion order -/
+abbrev Registry := List Entry
+
+def rkinds (g : Registry) : List Kind := g.map (·.kind)
+def find (g : Registry) (k : Kind) : Option Entry := g.find? (fun e => e.kind == k)
+
+inductive Op where
+  | register (k r : String) (cb : Nat)
+  | unregister (k : Kind)
+  | setState (kw : Kw)
+  | setcall (k : Kind) (cb : Nat)
+  | getcall (k : Kind)
+  | contains (k : Kind)
+  | test (trig args : List Kind)   -- `test(item, *args)` where exactly the tests of `trig` fire on `item`
+  deriving Repr, DecidableEq
+
+inductive Res where
+  | ok | keyError | typeError
+  | removed (r : String) (cb : Nat)     -- what `unregister` hands back: the state and the 'call' entry
+  | cb (n : Nat)                        -- `setcall` returns the previous callback, `getcall` the current one
+  | bool (b : Bool)
+  | ev (e : Ev)
+  deriving Repr, DecidableEq
+
+/-- the validation loop of the `state` setter over a registry -/
+def validKwR (g : Registry) (kw : Kw) : Bool :=
+  kw.all (fun kr => validReactions.contains kr.2 && (kr.1 == "all" || (rkinds g).contains kr.1))
+
+/-- the reaction a kind has after an accepted `state = kw` (kw is a dict: distinct keys; `seterr_spec` shows the
+assignment loop and this closed form agree) -/
+def newReaction (kw : Kw) (e : Entry) : String :=
+  match kw.lookup "all" with
+  | some r => r
+  | none => (kw.lookup e.kind).getD e.reaction
+
+def leStr (a b : String) : Bool := decide (a ≤ b)
+
+/-- the loop of `ErrorProfile.test` over the sorted candidate kinds: a name that is not registered gets the
+fallback `lambda: None`, which cannot be called with the item (TypeError); the first firing kind decides -/
+def testLoop (g : Registry) (trig : List Kind) : List Kind → Res
+  | [] => .ev .quiet
+  | k :: rest =>
+    match find g k with
+    | none => .typeError
+    | some e => if trig.contains k then .ev (reactionEv k e.reaction e.cb) else testLoop g trig rest
+
+def candidates (g : Registry) (args : List Kind) : List Kind :=
+  ((if args.isEmpty then rkinds g else args)).mergeSort leStr
+
+def step (g : Registry) : Op → Registry × Res
+  | .register k r cb =>
+    if (rkinds g).contains k then (g, .keyError)
+    else if !(validReactions.contains r) then (g, .keyError)
+    else (g ++ [⟨k, r, cb⟩], .ok)
+  | .unregister k =>
+    match find g k with
+    | none => (g, .keyError)
+    | some e => (g.filter (fun x => x.kind != k), .removed e.reaction e.cb)
+  | .setState kw =>
+    if validKwR g kw then (g.map (fun e => { e with reaction := newReaction kw e }), .ok) else (g, .keyError)
+  | .setcall k cb =>
+    match find g k with
+    | none => (g, .keyError)
+    | some e => (g.map (fun x => if x.kind == k then { x with cb := cb } else x), .cb e.cb)
+  | .getcall k =>
+    match find g k with
+    | none => (g, .keyError)
+    | some e => (g, .cb e.cb)
+  | .contains k => (g, .bool ((rkinds g).contains k))
+  | .test trig args => (g, testLoop g trig (candidates g args))
+
+def run (g : Registry) : List Op → Registry × List Res
+  | [] => (g, [])
+  | op :: ops =>
+    let (g1, r) := step g op
+    let (g2, rs) := run g1 ops
+    (g2, r :: rs)
+
+/-- same entries irrespective of the order in which a dict lists them -/
+def sameEntries (a b : Registry) : Bool := a.length == b.length && a.all (fun e => b.contains e)
+
+/-- The registry clauses, stated on what one call was observed to do: the registry before, the answer, the
+registry after.  Nothing here mentions `step`. -/
+def holdsStep (before : Registry) (op : Op) (res : Res) (after : Registry) : Bool :=
+  match op with
+  | .register k r cb =>
+    -- refused exactly for a kind already registered or an unknown reaction, and then nothing changes;
+    -- accepted: the new kind is there with the given reaction and callback, every other kind as before
+    let refuse := (rkinds before).contains k || !(validReactions.contains r)
+    if refuse then res == .keyError && sameEntries before after
+    else res == .ok && after.length == before.length + 1 && after.contains ⟨k, r, cb⟩ &&
+         before.all (fun e => after.contains e)
+  | .unregister k =>
+    match find before k with
+    | none => res == .keyError && sameEntries before after
+    | some e =>
+      res == .removed e.reaction e.cb && !((rkinds after).contains k) &&
+      after.length + 1 == before.length && before.all (fun x => x.kind == k || after.contains x)
+  | .setState kw =>
+    if validKwR before kw then
+      res == .ok && after.length == before.length &&
+      before.all (fun e => after.contains { e with reaction := newReaction kw e })
+    else res == .keyError && sameEntries before after
+  | .setcall k cb =>
+    match find before k with
+    | none => res == .keyError && sameEntries before after
+    | some e =>
+      res == .cb e.cb && after.length == before.length &&
+      before.all (fun x => after.contains (if x.kind == k then { x with cb := cb } else x))
+  | .getcall k =>
+    sameEntries before after &&
+    (match find before k with | none => res == .keyError | some e => res == .cb e.cb)
+  | .contains k => sameEntries before after && res == .bool ((rkinds before).contains k)
+  | .test trig args =>
+    sameEntries before after &&
+    (let cands := if args.isEmpty then rkinds before else args
+     -- a name that is not registered among the requested kinds: outside the documented arguments, not judged
+     if cands.any (fun k => !((rkinds before).contains k)) then true
+     else
+       let firing := cands.filter (fun k => trig.contains k)
+       match res with
+       | .ev ev =>
+         if firing.isEmpty then ev == .quiet
+         else
+           -- the reaction is the configured one of a firing kind that no other firing kind precedes
+           firing.any (fun k =>
+             firing.all (fun k' => leStr k k') &&
+             (match find before k with | some e => ev == reactionEv k e.reaction e.cb | none => false))
+       | _ => false)
+
+end Reg
+
+/-! registry requests -/
+def asEntry (j : Json) : R Reg.Entry := do
+  match (← asArr j) with
+  | [k, r, c] => pure ⟨(← asStr k), (← asStr r), (← asNat c)⟩
+  | _ => .error "entry"
+
+def asRegOp (j : Json) : R Reg.Op := do
+  match (← strF j "op") with
+  | "register" => pure (.register (← strF j "kind") (← strF j "reaction") (← natF j "cb"))
+  | "unregister" => pure (.unregister (← strF j "kind"))
+  | "setState" => pure (.setState (← asKw (← fld j "kw")))
+  | "setcall" => pure (.setcall (← strF j "kind") (← natF j "cb"))
+  | "getcall" => pure (.getcall (← strF j "kind"))
+  | "contains" => pure (.contains (← strF j "kind"))
+  | "test" => pure (.test (← listF asStr j "trig") (← listF asStr j "args"))
+  | s => .error s!"bad registry op {s}"
+
+def asRegRes (j : Json) : R Reg.Res := do
+  match (← strF j "res") with
+  | "ok" => pure .ok
+  | "keyError" => pure .keyError
+  | "typeError" => pure .typeError
+  | "removed" => pure (.removed (← strF j "reaction") (← natF j "cb"))
+  | "cb" => pure (.cb (← natF j "cb"))
+  | "bool" => pure (.bool (← boolF j "value"))
+  | "ev" => pure (.ev (← asEv j))
+  | s => .error s!"bad registry res {s}"
+
+def regResToJson : Reg.Res → Json
+  | .ok => Json.mkObj [("res", "ok")]
+  | .keyError => Json.mkObj [("res", "keyError")]
+  | .typeError => Json.mkObj [("res", "typeError")]
+  | .removed r c => Json.mkObj [("res", "removed"), ("reaction", .str r), ("cb", toJson c)]
+  | .cb c => Json.mkObj [("res", "cb"), ("cb", toJson c)]
+  | .bool b => Json.mkObj [("res", "bool"), ("value", .bool b)]
+  | .ev e => (evToJson e).setObjVal! "res" "ev"
+
+/-- {"reg": [{"before":[[k,r,cb]…], "op":…, "res":…, "after":[…]} …]}: every step is judged by `holdsStep` on what
+was observed, the steps must chain, and the model is run from the first registry over the same calls -/
+def handleReg (steps : List Json) : R Json := do
+  let mut clause : Option String := none
+  let mut agree := true
+  let mut cur : Option Reg.Registry := none
+  let mut mreg : Reg.Registry := []
+  let mut i := 0
+  let mut mres : List Json := []
+  for sj in steps do
+    let before ← listF asEntry sj "before"
+    let after ← listF asEntry sj "after"
+    let op ← asRegOp (← fld sj "op")
+    let res ← asRegRes (← fld sj "res")
+    if cur.isNone then mreg := before
+    match cur with
+    | some c => if !(Reg.sameEntries c before) && clause.isNone then clause := some s!"step {i}: registry changed between calls"
+    | none => pure ()
+    if !(Reg.holdsStep before op res after) && clause.isNone then
+      clause := some s!"step {i}: {reprStr op |>.take 60}"
+    let (m', r') := Reg.step mreg op
+    if !(r' == res && Reg.sameEntries m' after) then agree := false
+    mres := mres ++ [regResToJson r']
+    mreg := m'
+    cur := some after
+    i := i + 1
+  pure (Json.mkObj [("holds", .bool clause.isNone), ("clause", match clause with | some c => .str c | none => .null),
+    ("agree", .bool agree), ("model", .arr mres.toArray)])
+
 /-- request: {"prog":…, "state":[[k,r]…], "obs":…}  →  {"holds":…, "model":…, "agree":…}
     or {"facts": …} → {"firing": [kinds]} -/
 def handle (req : Json) : R Json := do
   if let some fj := optFld req "facts" then
     return Json.mkObj [("firing", strsToJson (firing (← asFacts fj)))]
+  if let some rj := optFld req "reg" then
+    return (← handleReg (← asArr rj))
   let prog ← asProg (← fld req "prog")
   let st ← asKw (← fld req "state")
   let obs ← asObs (← fld req "obs")
